@@ -90,6 +90,9 @@ def cases(tier, seed):
                 c["noise_clip"] = [0.5, 1.5][(r // 3) % 2]
             if algo in ("MADDPG", "MATD3"):
                 c["act"] = ["box", "box_asym3", "box_asym"][r % 3]
+                # agents of one name group interleaved with another group: columns of the joint action / observation have
+                # to follow agent_ids, not the grouping
+                c["ids"] = [None, ["agent_0", "other_0", "agent_1"], ["bob_1", "alice_0", "bob_0"]][r % 3]
             if c["obs"] == "image":
                 c["no_batch_norm"] = bool(rng.random() < 0.7)
             out.append(c)
@@ -120,6 +123,8 @@ def _build(case):
             "encoder_config": {"channel_size": [8], "kernel_size": [3], "stride_size": [1], "layer_norm": False},
         }
     agentops.seed_all(case["seed"])
+    if case.get("ids"):
+        kw["agent_ids"] = list(case["ids"])
     agent = zoo.make_agent(algo, case["obs"], case.get("act"), hp_config=zoo.tiny_hp_config(algo), **kw)
     if case.get("rand_w"):
         _randomise_online(agent, case["seed"])
